@@ -9,7 +9,7 @@ CLAIM = ("RayCasting<double,2|3> / <float,2> on a real GridIndexMapping (concret
          "and the last cell's closed box contains the end point (and is the end point's cell when that is strictly inside a cell); "
          "paths = origin cell x end cell x step interleaving, enumerated by the solver")
 BOUNDS = dict(quick="2D: extent [0,0.5]^2, resolution 0.25 (3x3 cells), cast(origin,end) on a dirty object and cast(end) after setOriginPoint with stale traversal members",
-              thorough="2D: 5x5 cells; float 2D; 3D: 2x2x2 and 3x3x3 cells")
+              thorough="2D: 4x4 cells (extent 0.75); float 2D 3x3; 3D: 2x2x2 cells (5x5 in 2D and 3x3x3 in 3D exceed 45 min on 16 cores)")
 ASSUMPTIONS = ["exact domain: accumulated crossing parameters are reals (rounding near corners is outside the claim)",
                "left-over traversal state: symbolic reals for tMax/tDelta/direction/points, concrete junk for steps and indexes"]
 OUTSIDE = ["IEEE rounding of the DDA parameters", "grids up to 2000 cells per axis", "float rounding"]
@@ -22,10 +22,9 @@ def entries(tier):
                 Entry("c14_cast_d2", params=dict(res=0.25, extent=0.5, dirty_step=-1, dirty_index=7, mode=0), concretize_fptoi=True, shard=12, budget=b),
 ]
     return [Entry("c14_cast_d2", params=dict(res=0.25, extent=0.5, dirty_step=-1, dirty_index=7, mode=1), concretize_fptoi=True, shard=12, budget=b),
-            Entry("c14_cast_d3", params=dict(res=0.25, extent=0.25, dirty_step=1, dirty_index=3, mode=1), concretize_fptoi=True, shard=8, budget=b),
-            Entry("c14_cast_d2", params=dict(res=0.25, extent=1.0, dirty_step=-1, dirty_index=7, mode=0), concretize_fptoi=True, shard=16, budget=b),
+            Entry("c14_cast_d2", params=dict(res=0.25, extent=0.75, dirty_step=-1, dirty_index=7, mode=0), concretize_fptoi=True, shard=16, budget=b),
             Entry("c14_cast_f2", params=dict(res=0.25, extent=0.5, dirty_step=-1, dirty_index=7, mode=0), concretize_fptoi=True, shard=8, budget=b),
-            Entry("c14_cast_d3", params=dict(res=0.25, extent=0.5, dirty_step=1, dirty_index=3, mode=0), concretize_fptoi=True, shard=16, budget=b)]
+            Entry("c14_cast_d3", params=dict(res=0.25, extent=0.25, dirty_step=1, dirty_index=3, mode=0), concretize_fptoi=True, shard=16, budget=dict(paths=200000, time=1500))]
 
 def tv_vectors(tier):
     p = dict(res=0.25, extent=0.5, dirty_step=-1, dirty_index=7, mode=0)
